@@ -614,6 +614,7 @@ func propC05(c *Ctx) {
 	c.ruleStringerIdentity("C05-STRINGER-IDENTITY")
 	c.ruleDisallowedCalls("C05-DISALLOWED-CALLS")
 	c.ruleIDSeparator("C05-ID-SEPARATOR")
+	c.ruleIDSourcesVerbatim("C05-ID-SOURCES-VERBATIM")
 	c.ruleLoopFlags("C05-LOOP-FLAG")
 }
 
@@ -1630,6 +1631,269 @@ func (c *Ctx) ruleIDSeparator(rule string) {
 	if n == 0 {
 		r.Undecided(rule, "sites", "Directive.Path returns no path variable", c.pos(f.Decl.Pos()))
 	}
+}
+
+// ---------- the parts of an id are the parameters as written ----------
+
+// ruleIDSourcesVerbatim: the key of an interaction is built from what the accessors of package directive return
+// (Path(), JsonRpcMethodName()), while the fields of the interaction, the tags and the path-variable tables are filled
+// from the parameters of the directive themselves. The two agree because the accessors hand the parameter on as it
+// stands; an accessor that trims, folds or decodes makes key and fields disagree for the inputs it changes.
+func (c *Ctx) ruleIDSourcesVerbatim(rule string) {
+	r := c.R
+	r.Rule(rule, "every method of directive.Directive with a (string, error) result that an id constructor of package catalog calls (newHTTPInteractionID, newJsonRpcInteractionId: Path, JsonRpcMethodName) returns, on success, a named parameter of the directive as it stands (d.NamedParameter(<constant>), directly or through a local only assigned from such calls) or the result of the same accessor of the parent: never the result of another function (strings.TrimSpace, ToLower, url.PathUnescape, ...); tests on the value (HasPrefix, ContainsAny) are free. The id constructors store into the path field of the id exactly what Path() returned, converted to the field's type", 2)
+	pkcat := c.P.Pkg("catalog")
+	if pkcat == nil {
+		r.Undecided(rule, "anchor", "package catalog not loaded", "")
+		return
+	}
+	accessors := map[*types.Func]bool{}
+	for _, f := range c.libFns() {
+		if f.Pkg != pkcat || !strings.Contains(strings.ToLower(f.Obj.Name()), "interactionid") || !strings.HasPrefix(f.Obj.Name(), "new") {
+			continue
+		}
+		ast.Inspect(f.Decl.Body, func(nd ast.Node) bool {
+			call, ok := nd.(*ast.CallExpr)
+			if !ok {
+				return true
+			}
+			cal := callee(f.Pkg, call)
+			if cal == nil || cal.Pkg() == nil || cal.Pkg().Path() != prog.ModulePath+"/directive" {
+				return true
+			}
+			sig := cal.Type().(*types.Signature)
+			if sig.Recv() == nil || sig.Results().Len() != 2 {
+				return true
+			}
+			if b, ok := sig.Results().At(0).Type().Underlying().(*types.Basic); ok && b.Kind() == types.String {
+				accessors[cal] = true
+			}
+			return true
+		})
+	}
+	n := 0
+	// ... and the id constructors store what the accessor gave them, converted to the field's type and nothing else
+	for _, f := range c.libFns() {
+		if f.Pkg != pkcat || !strings.Contains(strings.ToLower(f.Obj.Name()), "interactionid") || !strings.HasPrefix(f.Obj.Name(), "new") {
+			continue
+		}
+		pk := f.Pkg
+		fromAccessor := func(e ast.Expr) string {
+			e = ast.Unparen(e)
+			// a plain conversion to the type of the field
+			if call, ok := e.(*ast.CallExpr); ok && len(call.Args) == 1 {
+				if tv, isT := pk.TypesInfo.Types[call.Fun]; isT && tv.IsType() {
+					e = ast.Unparen(call.Args[0])
+				} else if cal := callee(pk, call); cal != nil && accessors[cal] {
+					return ""
+				} else {
+					return "the result of " + exprString(call.Fun)
+				}
+			}
+			id, ok := e.(*ast.Ident)
+			if !ok {
+				return "the value of " + exprString(e)
+			}
+			obj := pk.TypesInfo.Uses[id]
+			why, defs := "", 0
+			ast.Inspect(f.Decl.Body, func(m ast.Node) bool {
+				as, ok := m.(*ast.AssignStmt)
+				if !ok {
+					return true
+				}
+				for _, l := range as.Lhs {
+					lid, ok := l.(*ast.Ident)
+					if !ok || pk.TypesInfo.ObjectOf(lid) != obj {
+						continue
+					}
+					defs++
+					call, ok := ast.Unparen(as.Rhs[0]).(*ast.CallExpr)
+					if !ok || len(as.Rhs) != 1 {
+						why = "the value of " + exprString(as.Rhs[0])
+						continue
+					}
+					if cal := callee(pk, call); cal == nil || !accessors[cal] {
+						why = "the result of " + exprString(call.Fun)
+					}
+				}
+				return true
+			})
+			if defs == 0 {
+				return "the value of " + id.Name
+			}
+			return why
+		}
+		judge := func(key string, val ast.Expr, pos token.Pos) {
+			n++
+			if why := fromAccessor(val); why == "" {
+				r.Ok(rule, key, "stores what the accessor of the directive returned (a plain conversion)", c.pos(pos))
+			} else {
+				r.Bad(rule, key, "the path of the id is "+why+", not the path the accessor of the directive returned: everything else that is keyed by the path (path variables, similar paths, tags) uses the path as written", c.pos(pos))
+			}
+		}
+		ast.Inspect(f.Decl.Body, func(nd ast.Node) bool {
+			switch x := nd.(type) {
+			case *ast.AssignStmt:
+				for i, l := range x.Lhs {
+					if sel, ok := ast.Unparen(l).(*ast.SelectorExpr); ok && sel.Sel.Name == "path" && i < len(x.Rhs) && len(x.Lhs) == len(x.Rhs) {
+						judge(f.Name()+" | "+exprString(l)+" =", x.Rhs[i], x.Pos())
+					}
+				}
+			case *ast.KeyValueExpr:
+				if kid, ok := x.Key.(*ast.Ident); ok && kid.Name == "path" {
+					if fv, isF := pk.TypesInfo.Uses[kid].(*types.Var); isF && fv.IsField() {
+						judge(f.Name()+" | path:", x.Value, x.Pos())
+					}
+				}
+			}
+			return true
+		})
+	}
+	var accs []*types.Func
+	for a := range accessors {
+		accs = append(accs, a)
+	}
+	sort.Slice(accs, func(i, j int) bool { return accs[i].Name() < accs[j].Name() })
+	for _, a := range accs {
+		f := c.fnOf(a)
+		if f == nil || f.Decl == nil || f.Decl.Body == nil {
+			continue
+		}
+		pk := f.Pkg
+		var verbatim func(e ast.Expr, depth int) string
+		verbatim = func(e ast.Expr, depth int) string {
+			e = ast.Unparen(e)
+			if tv := pk.TypesInfo.Types[e]; tv.Value != nil {
+				return ""
+			}
+			switch x := e.(type) {
+			case *ast.CallExpr:
+				cal := callee(pk, x)
+				if cal == nil {
+					return "the result of " + exprString(x.Fun)
+				}
+				if cal.Name() == "NamedParameter" && len(x.Args) == 1 {
+					if _, isK := constString(pk, x.Args[0]); isK {
+						return ""
+					}
+				}
+				return "the result of " + exprString(x.Fun)
+			case *ast.Ident:
+				if depth > 3 {
+					return "a chain of locals"
+				}
+				obj := pk.TypesInfo.Uses[x]
+				v, isVar := obj.(*types.Var)
+				if !isVar || v.IsField() || v.Pos() < f.Decl.Body.Pos() {
+					return "the value of " + x.Name
+				}
+				why := ""
+				ast.Inspect(f.Decl.Body, func(m ast.Node) bool {
+					as, ok := m.(*ast.AssignStmt)
+					if !ok {
+						return true
+					}
+					for i, l := range as.Lhs {
+						lid, ok := l.(*ast.Ident)
+						if !ok || pk.TypesInfo.ObjectOf(lid) != obj {
+							continue
+						}
+						if len(as.Lhs) != len(as.Rhs) {
+							why = "a result of " + exprString(as.Rhs[0])
+							continue
+						}
+						if w := verbatim(as.Rhs[i], depth+1); w != "" {
+							why = w
+						}
+					}
+					return true
+				})
+				return why
+			}
+			return "the value of " + exprString(e)
+		}
+		k := 0
+		ast.Inspect(f.Decl.Body, func(nd ast.Node) bool {
+			if _, isLit := nd.(*ast.FuncLit); isLit {
+				return false
+			}
+			ret, ok := nd.(*ast.ReturnStmt)
+			if !ok {
+				return true
+			}
+			if len(ret.Results) == 1 {
+				// return d.Parent.X(): the same accessor of the parent
+				if call, ok := ast.Unparen(ret.Results[0]).(*ast.CallExpr); ok {
+					n++
+					k++
+					key := fmt.Sprintf("%s | return #%d", f.Name(), k)
+					if cal := callee(pk, call); cal != nil && cal == a {
+						r.Ok(rule, key, "hands on what the same accessor of the parent returns", c.pos(ret.Pos()))
+					} else if cal != nil && c.handsOnAccessor(cal, a, 0) {
+						r.Ok(rule, key, "hands on what "+cal.Name()+" returns, which is the same accessor of the parent (or an error)", c.pos(ret.Pos()))
+					} else {
+						r.Bad(rule, key, "the accessor returns the result of "+exprString(call.Fun)+": what the key of the interaction is built from is no longer the parameter the fields of the interaction are filled from", c.pos(ret.Pos()))
+					}
+				}
+				return true
+			}
+			if len(ret.Results) != 2 || !isNil(pk, ret.Results[1]) {
+				return true
+			}
+			n++
+			k++
+			key := fmt.Sprintf("%s | return #%d", f.Name(), k)
+			if why := verbatim(ret.Results[0], 0); why == "" {
+				r.Ok(rule, key, "returns the named parameter as it stands", c.pos(ret.Pos()))
+			} else {
+				r.Bad(rule, key, "the accessor returns "+why+" instead of the parameter as it stands: the key of the interaction (built from the accessor) and its method/path fields, its tags and its path variables (built from the parameter) disagree for the inputs the function changes", c.pos(ret.Pos()))
+			}
+			return true
+		})
+	}
+	if n < 4 {
+		r.Undecided(rule, "sites", fmt.Sprintf("only %d returns of id accessors found", n), "")
+	}
+}
+
+// handsOnAccessor: every return of the helper g hands on a call of the accessor a (or of another such helper), or
+// fails (a zero string with a non-nil error).
+func (c *Ctx) handsOnAccessor(g, a *types.Func, depth int) bool {
+	h := c.fnOf(g)
+	if h == nil || h.Decl == nil || h.Decl.Body == nil || depth > 2 {
+		return false
+	}
+	ok, n := true, 0
+	ast.Inspect(h.Decl.Body, func(nd ast.Node) bool {
+		if _, isLit := nd.(*ast.FuncLit); isLit {
+			return false
+		}
+		ret, isRet := nd.(*ast.ReturnStmt)
+		if !isRet {
+			return true
+		}
+		n++
+		switch len(ret.Results) {
+		case 1:
+			call, isCall := ast.Unparen(ret.Results[0]).(*ast.CallExpr)
+			if !isCall {
+				ok = false
+				return true
+			}
+			cal := callee(h.Pkg, call)
+			if cal == nil || (cal != a && !c.handsOnAccessor(cal, a, depth+1)) {
+				ok = false
+			}
+		case 2:
+			if s, isStr := constString(h.Pkg, ret.Results[0]); !isStr || s != "" || isNil(h.Pkg, ret.Results[1]) {
+				ok = false
+			}
+		default:
+			ok = false
+		}
+		return true
+	})
+	return ok && n > 0
 }
 
 // ---------- every schema made from a body gets the rules of the project ----------
